@@ -165,4 +165,19 @@ class IlluminaExonCorrector:
         if not validate_exons(get_exons((exons[0][0], exons[-1][1]), corrected_introns)):
             logger.debug("old:", introns)
             logger.debug("new:", corrected_introns)
-        return get_exons((exons[0][0], exons[-1][1]), corrected_introns)
+        corrected_exons = get_exons((exons[0][0], exons[-1][1]), corrected_introns)
+        # short-read introns reaching beyond the read, abutting or out of order would move the read's ends
+        # or yield empty / overlapping exons: keep the original alignment in this case
+        if not self.is_valid_correction(exons, corrected_exons):
+            return exons
+        return corrected_exons
+
+    @staticmethod
+    def is_valid_correction(exons, corrected_exons):
+        if not corrected_exons:
+            return False
+        if corrected_exons[0][0] != exons[0][0] or corrected_exons[-1][1] != exons[-1][1]:
+            return False
+        if any(e[0] > e[1] for e in corrected_exons):
+            return False
+        return all(corrected_exons[i][1] < corrected_exons[i + 1][0] for i in range(len(corrected_exons) - 1))
